@@ -57,6 +57,8 @@ type VC struct {
 	rs            *runState
 	csHit         map[*CallSite]bool
 	indexTerms    []string
+	knownRefs     []string
+	rowFacts      int
 	funcCands     map[int]*ssa.Function
 	knownNumerals map[string]bool
 	tagTypes      map[string]types.Type
@@ -210,7 +212,19 @@ func (vc *VC) storeScalar(h *Heap, l *Layout, r, o string, v *Val) {
 	}
 	for i, c := range cs {
 		old := h.m[c.name]
-		h.m[c.name] = vc.define("H", heapSort(c.name), sto(old, r, sto(sel(old, r), o, v.C[i])))
+		nh := vc.define("H", heapSort(c.name), sto(old, r, sto(sel(old, r), o, v.C[i])))
+		h.m[c.name] = nh
+		// ground read-over-write instances for the other objects the function knows by name (helps the
+		// solvers' lazy array reasoning: reads of a[], b[] after a store into p[])
+		if len(vc.knownRefs) > 0 && len(vc.knownRefs) <= 10 && vc.rowFacts < 400 {
+			for _, kr := range vc.knownRefs {
+				if kr == r {
+					continue
+				}
+				vc.rowFacts++
+				vc.assume(sImp(sNot(sEq(kr, r)), sEq(sel(nh, kr), sel(old, kr))))
+			}
+		}
 	}
 }
 
